@@ -1,6 +1,5 @@
 (* C16_Check.v — correspondence checker for C16.  One case = one step that real gorm executed:
-   model_agrees: the model of the code as it is (C16_Model.step, with the clone behaviour read
-                 from the source) returns the same record,
+   model_agrees: the model of the code as it is (C16_Model.step_repo) returns the same record,
                  RowsAffected, error flag and table;
    spec_holds:   the property (C16_Spec.spec_step, chain read with Session/WithContext erased)
                  holds of what gorm returned. *)
@@ -8,8 +7,6 @@ From Verif Require Export Base C16_Model C16_Spec.
 Open Scope Z_scope.
 
 Record case := mk_case {
-  c_keep : bool;            (* read from the source on every run: does Statement.clone copy attrs and
-                               assigns?  (false on the tree as it is; see harness cmd/c16 cloneKeeps) *)
   c_tbl : table; c_now : Z; c_chain : list cel; c_fin : fin;
   (* observed from gorm *)
   k_ret : rec; k_ra : Z; k_err : bool; k_writes : Z; k_tbl : table;
@@ -19,7 +16,7 @@ Record case := mk_case {
 Definition obs_of (c : case) : obs := mk_obs (k_ret c) (k_ra c) (k_err c) (k_writes c) (k_tbl c).
 
 Definition model_agrees (c : case) : bool :=
-  let m := step (c_keep c) (c_tbl c) (c_now c) (c_chain c) (c_fin c) in
+  let m := step_repo (c_tbl c) (c_now c) (c_chain c) (c_fin c) in
   negb (k_setup_failed c)
   && Bool.eqb (k_err c) (res_err m)
   && (k_err c || rec_eqb (k_ret c) (res_ret m))
